@@ -548,10 +548,45 @@ func (r *run) evalSource(tr bool) {
 	hmust(err)
 	src2.TarReproducible = tr
 	for k, it := range items {
-		d2, err := src2.Add(ctx, it.name, it.mediaType, addPath(it, k, false))
+		// the second store is given other spellings of the same path: absolute with a doubled separator,
+		// absolute with a "." segment, through a symbolic link (files) or through "<dir>/.." (directories)
+		p2, spelled := addPath(it, k, false), "as in the first store"
+		if !it.defaultPath {
+			switch (k + len(it.ents) + len(it.data)) % 3 {
+			case 0:
+				p2, spelled = src2wd+"//"+p2, "absolute path with a doubled separator"
+			case 1:
+				p2, spelled = src2wd+"/./"+p2, "absolute path with a '.' segment"
+			default:
+				if it.dir {
+					p2, spelled = src2wd+"/"+p2+"/../"+p2, "absolute path through '<dir>/..'"
+				} else {
+					hmust(os.Symlink(p2, filepath.Join(src2wd, "ln-"+p2)))
+					p2, spelled = "ln-"+p2, "relative path that is a symbolic link to the file"
+				}
+			}
+		}
+		w2 := where + " (second copy of the tree, path given to Add: " + spelled + ")"
+		d2, err := src2.Add(ctx, it.name, it.mediaType, p2)
 		if err != nil {
-			r.fail(fail("Add failed ("+itemClass(it)+"): "+errWords(err), "%s", r.scrub(err)), where+" (second copy of the tree)")
+			r.fail(fail("Add failed ("+itemClass(it)+"): "+errWords(err), "%s", r.scrub(err)), w2)
 			break
+		}
+		if rc, err := src2.Fetch(ctx, d2); err != nil {
+			r.fail(fail("adding store cannot serve the descriptor it returned ("+itemClass(it)+")", "%s", r.scrub(err)), w2)
+		} else {
+			b, err := io.ReadAll(rc)
+			rc.Close()
+			switch {
+			case err != nil:
+				r.fail(fail("adding store cannot serve the descriptor it returned ("+itemClass(it)+")", "%s", r.scrub(err)), w2)
+			case string(d2.Digest) != sha(b) || d2.Size != int64(len(b)):
+				r.fail(fail("descriptor digest/size are not those of the stored bytes ("+itemClass(it)+")", "descriptor %s %d, bytes %s %d", d2.Digest, d2.Size, sha(b), len(b)), w2)
+			case !it.dir && !bytes.Equal(b, it.data):
+				r.fail(fail("adding store serves other bytes than the added file", "want %d bytes got %d", len(it.data), len(b)), w2)
+			case it.dir:
+				r.fail(checkArchive(b, it, d2.Annotations[keyDigest]), w2)
+			}
 		}
 		same := reflect.DeepEqual(d2, descs[k])
 		switch {
